@@ -1,6 +1,6 @@
-//! Shared plumbing of the sweep engine: report accumulation, sharding over
-//! threads, panic capture, small deterministic PRNG (only for *extra*
-//! backgrounds, never for a verdict).
+// Shared plumbing of the sweep engine: report accumulation, sharding over
+// threads, panic capture, small deterministic PRNG (only for *extra*
+// backgrounds, never for a verdict).
 
 use serde_json::{json, Value};
 use std::collections::BTreeMap;
@@ -232,8 +232,29 @@ pub fn par_items<F: Fn(usize) + Sync>(threads: usize, n: usize, f: F) {
     });
 }
 
+thread_local! {
+    static LAST_PANIC_LOC: std::cell::RefCell<String> = const { std::cell::RefCell::new(String::new()) };
+}
+
+/// Silence the default panic message; remember where the last panic of this
+/// thread came from (source file and line).
 pub fn silence_panics() {
-    std::panic::set_hook(Box::new(|_| {}));
+    std::panic::set_hook(Box::new(|info| {
+        let loc = info.location().map(|l| format!("{}:{}", l.file(), l.line())).unwrap_or_default();
+        LAST_PANIC_LOC.with(|c| *c.borrow_mut() = loc);
+    }));
+}
+
+/// "file.rs:line" of the last panic caught on this thread
+pub fn last_panic_loc() -> String {
+    LAST_PANIC_LOC.with(|c| c.borrow().clone())
+}
+
+/// Source file (base name, no line) of the last panic caught on this thread
+pub fn last_panic_file() -> String {
+    let l = last_panic_loc();
+    let f = l.rsplit('/').next().unwrap_or("");
+    f.split(':').next().unwrap_or("").to_string()
 }
 
 pub fn panic_text(e: Box<dyn std::any::Any + Send>) -> String {
@@ -256,7 +277,7 @@ pub fn guarded<T, F: FnOnce() -> T>(f: F) -> Result<T, String> {
 pub fn panic_class(msg: &str) -> String {
     let mut out = String::new();
     let mut last_hash = false;
-    for c in msg.chars() {
+    for c in msg.lines().next().unwrap_or("").chars() {
         if c.is_ascii_digit() {
             if !last_hash {
                 out.push('#');
@@ -267,7 +288,9 @@ pub fn panic_class(msg: &str) -> String {
             out.push(if c == ' ' { '_' } else { c });
         }
     }
-    out.truncate(80);
+    while out.len() > 80 {
+        out.pop();
+    }
     out
 }
 
